@@ -97,3 +97,26 @@ Theorem C19_interleaved_uses_observe_first_evaluation :
   forall ops, Forall2 (allowed V value) ops (snd (run V compute deps_of [] ops)).
 Proof. exact history_observes_first_evaluation. Qed.
 Print Assumptions C19_interleaved_uses_observe_first_evaluation.
+
+(* ---- a task published as OK can be found by every other run (C02/Control.v) ---- *)
+Require Import BS.Gen.C02_params BS.C02.Control BS.C02.ControlSafety.
+
+(* read from the Go AST of bigmachineExecutor.Run on every run: the location of a task's
+   output is recorded BEFORE the task is published as TaskOk (and TaskOk before Assign).  A run
+   that shares the task and sees it OK - a dependent being dispatched, a scan - therefore finds
+   the location; with the statements swapped there is a window in which it does not. *)
+Theorem C19_gen_location_recorded_before_ok : setlocation_before_ok = true /\ ok_before_assign = true.
+Proof. split; reflexivity. Qed.
+Print Assumptions C19_gen_location_recorded_before_ok.
+
+(* in the control-plane model, which processes a reply in that order, over ALL interleavings
+   of any number of dispatches, replies, losses and scans: a task in state OK has a location *)
+Theorem C19_ok_task_is_located :
+  forall compute okb max_lost max_retry g roots, wf_graph g roots = true -> forall n h,
+  let w := Control.run compute okb max_lost max_retry g roots (init_world n) h in
+  forall t, wst w t = TOk -> exists m, wloc w t = Some m.
+Proof.
+  intros compute okb max_lost max_retry g roots Hwf n h w t Ht.
+  exact (proj1 (proj2 (ctl_inv_all_histories compute okb max_lost max_retry g roots Hwf n h)) t Ht).
+Qed.
+Print Assumptions C19_ok_task_is_located.
